@@ -5,6 +5,8 @@ import json, sys, glob, os
 pid, defect, what = sys.argv[1], sys.argv[2], sys.argv[3]
 flt = sys.argv[4] if len(sys.argv) > 4 else ''
 why = sys.argv[5] if len(sys.argv) > 5 else ''
+import subprocess
+subprocess.run(['/verif/check', pid], capture_output=True)   # refresh the violation files first
 p = '/verif/known_findings.json'
 k = json.load(open(p)) if os.path.exists(p) else []
 have = {(e['property'], e['key']) for e in k}
